@@ -32,17 +32,19 @@ inductive ReqLineErr (multi : Bool) : (s : List Byte) → Error → Prop where
   /-- method: a byte that is neither tchar nor (after at least one tchar) the SP delimiter -/
   | method {m r : List Byte} {b : Byte} : (∀ x ∈ m, isTchar x = true) → isTchar b = false →
       (m = [] ∨ b ≠ SP) → ReqLineErr multi (m ++ b :: r) .token
-  /-- target: empty, or ended by a byte that is neither a target byte nor SP -/
+  /-- target: empty, or ended by a byte that is neither a target byte nor SP (with the multi-space
+  option the SP run `sp₁` is maximal: an SP right after it belongs to the delimiter, not to an empty target) -/
   | target {m sp₁ t r : List Byte} {b : Byte} : m ≠ [] → (∀ x ∈ m, isTchar x = true) → IsDelim multi sp₁ →
-      (∀ x ∈ t, isUri x = true) → isUri b = false → (t = [] ∨ b ≠ SP) →
+      (∀ x ∈ t, isUri x = true) → isUri b = false → (t = [] ∨ b ≠ SP) → (multi = true → t = [] → b ≠ SP) →
       ReqLineErr multi (m ++ sp₁ ++ t ++ b :: r) .token
   /-- target: not valid UTF-8 (judged at its terminating SP) -/
   | targetUtf8 {m sp₁ t r : List Byte} : m ≠ [] → (∀ x ∈ m, isTchar x = true) → IsDelim multi sp₁ →
       t ≠ [] → (∀ x ∈ t, isUri x = true) → validUtf8 t = false →
       ReqLineErr multi (m ++ sp₁ ++ t ++ SP :: r) .token
-  /-- version literal -/
+  /-- version literal (with the multi-space option the SP run `sp₂` is maximal) -/
   | version {m sp₁ t sp₂ p r : List Byte} {x : Byte} : m ≠ [] → (∀ y ∈ m, isTchar y = true) → IsDelim multi sp₁ →
       t ≠ [] → (∀ y ∈ t, isUri y = true) → validUtf8 t = true → IsDelim multi sp₂ → VersionMismatch p x →
+      (multi = true → p = [] → x ≠ SP) →
       ReqLineErr multi (m ++ sp₁ ++ t ++ sp₂ ++ p ++ x :: r) .version
   /-- request-line terminator -/
   | eol {m sp₁ t sp₂ s : List Byte} {v : Nat} : m ≠ [] → (∀ y ∈ m, isTchar y = true) → IsDelim multi sp₁ →
@@ -56,9 +58,9 @@ inductive RespLineErr (multi : Bool) : (s : List Byte) → Error → Prop where
   /-- the SP after the version -/
   | versionSp {r : List Byte} {v : Nat} {x : Byte} : (v = 0 ∨ v = 1) → x ≠ SP →
       RespLineErr multi (versionBytes v ++ x :: r) .version
-  /-- status code: fewer than three digits -/
+  /-- status code: fewer than three digits (with the multi-space option the SP run `sp₁` is maximal) -/
   | code {sp₁ ds r : List Byte} {v : Nat} {x : Byte} : (v = 0 ∨ v = 1) → IsDelim multi sp₁ →
-      ds.length < 3 → (∀ d ∈ ds, isDigit d = true) → isDigit x = false →
+      ds.length < 3 → (∀ d ∈ ds, isDigit d = true) → isDigit x = false → (multi = true → ds = [] → x ≠ SP) →
       RespLineErr multi (versionBytes v ++ sp₁ ++ ds ++ x :: r) .status
   /-- the byte after the code is neither SP, CR nor LF; or CR not followed by LF -/
   | afterCode {sp₁ s : List Byte} {v : Nat} {d₁ d₂ d₃ : Byte} : (v = 0 ∨ v = 1) → IsDelim multi sp₁ →
